@@ -44,6 +44,24 @@ type TransactionImpl struct {
 	creationTime   time.Time
 	lastActiveTime time.Time
 	ttl            time.Duration
+
+	// Guards lastActiveTime: the registry's stale-transaction sweep reads it
+	// while the client's calls update it
+	activeMu sync.Mutex
+}
+
+// touch records that the transaction was just used
+func (tx *TransactionImpl) touch() {
+	tx.activeMu.Lock()
+	tx.lastActiveTime = time.Now()
+	tx.activeMu.Unlock()
+}
+
+// lastActive returns the time of the transaction's last use
+func (tx *TransactionImpl) lastActive() time.Time {
+	tx.activeMu.Lock()
+	defer tx.activeMu.Unlock()
+	return tx.lastActiveTime
 }
 
 // StatsCollector defines the interface for collecting transaction statistics
@@ -64,7 +82,7 @@ func (tx *TransactionImpl) Get(key []byte) ([]byte, error) {
 	}
 
 	// Update last active time
-	tx.lastActiveTime = time.Now()
+	tx.touch()
 
 	// First check the transaction buffer for any pending changes
 	if val, found := tx.buffer.Get(key); found {
@@ -91,7 +109,7 @@ func (tx *TransactionImpl) Put(key, value []byte) error {
 	}
 
 	// Update last active time
-	tx.lastActiveTime = time.Now()
+	tx.touch()
 
 	// Check if transaction is read-only
 	if tx.mode == ReadOnly {
@@ -115,7 +133,7 @@ func (tx *TransactionImpl) Delete(key []byte) error {
 	}
 
 	// Update last active time
-	tx.lastActiveTime = time.Now()
+	tx.touch()
 
 	// Check if transaction is read-only
 	if tx.mode == ReadOnly {
@@ -140,7 +158,7 @@ func (tx *TransactionImpl) NewIterator() iterator.Iterator {
 	}
 
 	// Update last active time
-	tx.lastActiveTime = time.Now()
+	tx.touch()
 
 	// Get the storage iterator
 	storageIter, err := tx.storage.GetIterator()
@@ -174,7 +192,7 @@ func (tx *TransactionImpl) NewRangeIterator(startKey, endKey []byte) iterator.It
 	}
 
 	// Update last active time
-	tx.lastActiveTime = time.Now()
+	tx.touch()
 
 	// Get the storage iterator for the range
 	storageIter, err := tx.storage.GetRangeIterator(startKey, endKey)
